@@ -3,7 +3,7 @@
 PROOF (finite): Entity._before_save_ / _after_save_ dispatch exactly the hook that matches the status; SessionCache.call_after_save_hooks calls each recorded
 (object, status) once, in order, and entries recorded while the hooks run are kept for the next round.
 BOUNDED (end to end): on a real SQLite model whose hooks write a log, for enumerated scripts x ways of flushing (commit, flush(), obj.flush(), auto-flush by a
-query, two rounds) x hook behaviours (passive, edits an attribute in before_*, creates an object in before_insert, modifies another object in after_insert):
+query, two rounds) x hook behaviours (passive, edits an attribute in before_*, creates an object in before_insert, modifies another object in after_insert, creates a new principal and refers to it in before_update):
 for every object and kind the k-th before-hook precedes the k-th statement precedes the k-th after-hook, the three counts are equal (exactly once per
 written change), and the committed database contains the edits and objects made inside before_* hooks."""
 import types
@@ -50,6 +50,9 @@ def model():
             def before_update(self):
                 self._log('before_update')
                 if BEHAVIOUR['mode'] == 'edit' and hasattr(self, 'note'): self.note = 'edited-in-before_update'
+                if BEHAVIOUR['mode'] == 'assign-principal' and type(self).__name__ == 'P':
+                    # the hook itself creates a new object and makes this object refer to it (an attribute not written before the hook)
+                    self.g = type(self)._database_.G(name='principal-made-in-before_update-of-%s#%d' % (self.name, len(LOG)))
             def before_delete(self): self._log('before_delete')
             def after_insert(self):
                 self._log('after_insert')
@@ -98,7 +101,7 @@ def _scripts(M):
 
 
 TRIGGERS = ('commit', 'flush', 'obj.flush', 'query', 'two_rounds')
-MODES = ('passive', 'edit', 'create', 'after-modifies')
+MODES = ('passive', 'edit', 'create', 'after-modifies', 'assign-principal')
 
 
 def _configs(tier):
@@ -191,6 +194,10 @@ def _hook_edits_saved(cfg, i, path):
         for e in log:
             if e[0] == 'before_insert' and e[1] == 'P' and not e[2].startswith('made'):
                 if 'made-by-hook-of-' + e[2] not in rows_g: return False
+    if cfg['mode'] == 'assign-principal':
+        for e in log:
+            if e[0] == 'before_update' and e[1] == 'P' and e[2] in rows_p:
+                if not any(n.startswith('principal-made-in-before_update-of-' + e[2] + '#') for n in rows_g): return False
     if cfg['mode'] == 'after-modifies':
         n = len([e for e in log if e[0] == 'after_insert' and e[1] == 'P'])
         if n and 'g0' in rows_g and rows_g['g0'][1] != n: return False
@@ -261,5 +268,5 @@ CONTRACTS = [
                                   'pony.orm.core:Entity._before_save_with_principal_objects_', 'pony.orm.core:SessionCache.call_after_save_hooks'], _configs, _case,
              [('before_statement_after_exactly_once_in_order', _once_and_ordered), ('expected_statements_written', _writes_happened),
               ('edits_and_objects_made_in_before_hooks_are_saved', _hook_edits_saved)], level='bounded',
-             bound='9 scripts x 5 ways of flushing x 4 hook behaviours on a two-entity model'),
+             bound='9 scripts x 5 ways of flushing x 5 hook behaviours on a two-entity model'),
 ]
